@@ -21,6 +21,10 @@ type Conf struct {
 	PBits int
 	NP    int
 	T     uint64
+	// QAbove: take the NQ+NP primes just above 2^QBits instead of just below (used for 60-bit plaintext moduli,
+	// which need Q[0] > t, while staying away from the 61-bit primes bgv.NewParameters picks for its internal
+	// auxiliary basis QMul)
+	QAbove bool
 }
 
 // PlainModulus returns a prime t ≡ 1 mod 2^(logN+1) just below 2^bits (so that the plaintext ring has the
@@ -40,7 +44,10 @@ func PlainModulus(logN, bits int) uint64 {
 // Build constructs the parameters (panics on harness misuse).
 func (cf Conf) Build() bgv.Parameters {
 	lit := bgv.ParametersLiteral{LogN: cf.LogN, PlaintextModulus: cf.T}
-	if cf.NP > 0 && cf.PBits == cf.QBits {
+	if cf.QAbove {
+		all := ref.PrimesNear(uint64(1)<<cf.QBits, uint64(1)<<(cf.LogN+2), cf.NQ+cf.NP, false)
+		lit.Q, lit.P = all[:cf.NQ], all[cf.NQ:]
+	} else if cf.NP > 0 && cf.PBits == cf.QBits {
 		all := uni.Primes(cf.LogN, cf.QBits, cf.NQ+cf.NP)
 		lit.Q, lit.P = all[:cf.NQ], all[cf.NQ:]
 	} else {
